@@ -2012,6 +2012,199 @@ func (w *world) wrongHeightProposalScript() {
 	}
 }
 
+// foreignHashPrepareScript (member 3 Byzantine): members 1 and 2 receive the leader's proposal A; the Byzantine member
+// sends each of them - one before, one after the proposal - its PREPARE and COMMIT for another hash B (block hashes here are long byte strings that agree in their first
+// 40 bytes). Proposal + own PREPARE + that PREPARE is quorum weight only if B is counted for A: nobody is prepared,
+// nobody sends COMMIT (C10: a COMMIT for (v, x) needs a prepared certificate for exactly (v, x)).
+func (w *world) foreignHashPrepareScript() {
+	for _, n := range w.honest {
+		w.sync(n, nil)
+	}
+	// member 1 hears the Byzantine member first, member 2 the leader first
+	w.inject(w.byId[1], &aMsg{Kind: "P", Ref: aRef{2, worldInst, 1, 0, 2999995}, Snd: aSig{3, true}}, "byz-P-other-hash")
+	w.inject(w.byId[1], &aMsg{Kind: "C", Ref: aRef{3, worldInst, 1, 0, 2999995}, Snd: aSig{3, true}, ShareOk: true}, "byz-C-other-hash")
+	w.take(1, "PP", 0)
+	w.take(2, "PP", 0)
+	w.inject(w.byId[2], &aMsg{Kind: "P", Ref: aRef{2, worldInst, 1, 0, 2999995}, Snd: aSig{3, true}}, "byz-P-other-hash")
+	w.inject(w.byId[2], &aMsg{Kind: "C", Ref: aRef{3, worldInst, 1, 0, 2999995}, Snd: aSig{3, true}, ShareOk: true}, "byz-C-other-hash")
+	// their own PREPAREs reach nobody; what they may have sent as COMMIT does
+	for k := 0; k < 20 && len(w.pool) > 0; k++ {
+		p := w.pool[0]
+		w.pool = w.pool[1:]
+		if w.byz[p.to] || p.msg.Kind != "C" {
+			continue
+		}
+		w.deliverG(w.byId[p.to], p.msg, p.raw, p.genuine)
+	}
+}
+
+// forgedProofAfterGenuineScript (member 3 Byzantine, leader of view 3): member 0 gets prepared on A in view 1; view 2
+// re-proposes A on member 0's genuine proof (members 0 and 2 validate that proof of view 1). Everybody times out of
+// view 2; members 1 and 2 vote without proofs. The Byzantine leader of view 3 adds its own vote with a "proof" that
+// claims view 1 for another block B and is signed by nobody but itself, and proposes B. A proof is validated every time
+// it is presented: the NEW_VIEW is ignored (C07, C08).
+func (w *world) forgedProofAfterGenuineScript() {
+	for _, n := range w.honest {
+		w.sync(n, nil)
+	}
+	w.pool = nil
+	for _, id := range []uint64{0, 2, 1} {
+		w.election(w.byId[id], 1, 0)
+	}
+	w.takeV(1, "VC", 0, 1)
+	w.takeV(1, "VC", 2, 1)
+	w.takeV(0, "NV", 1, 1)
+	w.takeV(2, "NV", 1, 1)
+	w.takeV(0, "P", 2, 1) // member 0 is prepared on A in view 1
+	w.pool = nil
+	for _, id := range []uint64{0, 1, 2} {
+		w.election(w.byId[id], 1, 1)
+	}
+	w.takeV(2, "VC", 0, 2)
+	w.takeV(2, "VC", 1, 2)
+	w.takeV(0, "NV", 2, 2) // re-proposal of A; the proof of view 1 is validated by members 2 and 0
+	w.pool = nil
+	for _, id := range []uint64{1, 2, 0} {
+		w.election(w.byId[id], 1, 2)
+	}
+	var votes []aVote
+	for _, m := range w.history {
+		if m.Kind == "VC" && m.Vote.Height == 1 && m.Vote.View == 3 && m.Vote.Snd.Ok && (m.Vote.Snd.Id == 1 || m.Vote.Snd.Id == 2) && m.Vote.Proof == nil {
+			votes = append(votes, cloneVote(*m.Vote))
+		}
+	}
+	if len(votes) != 2 {
+		w.rep.count("world:directed-forged-proof-after-genuine-setup-failed")
+		return
+	}
+	w.pool = nil
+	b := &aBlock{Height: 1, Id: 2999996}
+	forged := &aProof{PPRef: aRef{1, worldInst, 1, 1, b.Id}, PPSnd: aSig{3, true}, PRef: aRef{2, worldInst, 1, 1, b.Id}, PSnds: []aSig{{3, true}}}
+	votes = append(votes, aVote{5, worldInst, 1, 3, forged, aSig{3, true}})
+	nv := &aMsg{Kind: "NV", NVType: 4, NVInst: worldInst, NVHeight: 1, NVView: 3, Votes: votes, Snd: aSig{3, true},
+		Ref: aRef{1, worldInst, 1, 3, b.Id}, PPSnd: aSig{3, true}, Block: b}
+	for _, id := range []uint64{0, 2, 1} {
+		w.inject(w.byId[id], nv.clone(), "byz-NV-forged-proof-of-a-view-validated-before")
+	}
+	for k := 0; k < 40 && len(w.pool) > 0; k++ {
+		p := w.pool[0]
+		w.pool = w.pool[1:]
+		if w.byz[p.to] {
+			continue
+		}
+		w.deliverG(w.byId[p.to], p.msg, p.raw, p.genuine)
+	}
+}
+
+// replayedVotesScript (member 1 Byzantine, leader of views 1 and 5): the correct members vote for view 1 and nothing
+// comes of it; they time out through views 1..4 (all votes lost) and sit in view 5. The Byzantine member now sends a
+// NEW_VIEW for view 5 that embeds their genuine votes for view 1 - a view with the same leader, n views earlier. Votes
+// count for the view they name (C08, C07): the NEW_VIEW is ignored.
+func (w *world) replayedVotesScript() {
+	for _, n := range w.honest {
+		w.sync(n, nil)
+	}
+	w.pool = nil
+	for v := uint64(0); v <= 4; v++ {
+		for _, id := range []uint64{0, 2, 3} {
+			w.election(w.byId[id], 1, v)
+		}
+		w.pool = nil
+	}
+	votes := []aVote{{5, worldInst, 1, 1, nil, aSig{1, true}}}
+	seen := map[uint64]bool{}
+	for _, m := range w.history {
+		if m.Kind == "VC" && m.Vote.Height == 1 && m.Vote.View == 1 && !seen[m.Vote.Snd.Id] && m.Vote.Snd.Ok {
+			votes = append(votes, cloneVote(*m.Vote))
+			seen[m.Vote.Snd.Id] = true
+		}
+	}
+	if len(votes) < 4 {
+		w.rep.count("world:directed-replayed-votes-setup-failed")
+		return
+	}
+	b := &aBlock{Height: 1, Id: 2999997}
+	nv := &aMsg{Kind: "NV", NVType: 4, NVInst: worldInst, NVHeight: 1, NVView: 5, Votes: votes, Snd: aSig{1, true},
+		Ref: aRef{1, worldInst, 1, 5, b.Id}, PPSnd: aSig{1, true}, Block: b}
+	for _, id := range []uint64{0, 2, 3} {
+		w.inject(w.byId[id], nv.clone(), "byz-NV-with-votes-of-an-earlier-view-of-the-same-leader")
+	}
+	for k := 0; k < 40 && len(w.pool) > 0; k++ {
+		p := w.pool[0]
+		w.pool = w.pool[1:]
+		if w.byz[p.to] {
+			continue
+		}
+		w.deliverG(w.byId[p.to], p.msg, p.raw, p.genuine)
+	}
+}
+
+// takeH: deliver the pending message of that kind, sender and HEIGHT (view 0) to a member
+func (w *world) takeH(to uint64, kind string, from uint64, height uint64) bool {
+	for i, p := range w.pool {
+		if p.to == to && p.msg.Kind == kind && p.msg.sender() == from && p.msg.height() == height && p.msg.view() == 0 {
+			w.pool = append(w.pool[:i], w.pool[i+1:]...)
+			w.deliverG(w.byId[p.to], p.msg, p.raw, p.genuine)
+			return true
+		}
+	}
+	return false
+}
+
+// cachedBadCommitScript (member 3 Byzantine): members 0 and 1 have committed height 1 and work on height 2; member 2 is
+// still at height 1. It receives, for height 2 and in this order: a COMMIT of the Byzantine member whose random-seed
+// share does not verify, the leader's PREPREPARE, member 1's PREPARE - all cached. Then it commits height 1. Every cached
+// message of height 2 is handed to the term of height 2, in arrival order, whatever the term thinks of the others (C17):
+// the bad COMMIT is refused, the proposal is accepted and answered with a PREPARE.
+func (w *world) cachedBadCommitScript() {
+	for _, n := range w.honest {
+		w.sync(n, nil)
+	}
+	w.takeH(1, "PP", 0, 1)
+	w.takeH(2, "PP", 0, 1)
+	for _, x := range [][2]uint64{{0, 1}, {0, 2}, {1, 2}, {2, 1}} {
+		w.takeH(x[0], "P", x[1], 1)
+	}
+	for _, x := range [][2]uint64{{0, 1}, {0, 2}, {1, 0}, {1, 2}} {
+		w.takeH(x[0], "C", x[1], 1)
+	}
+	n2 := w.byId[2]
+	if !w.byId[0].hasCommitted(1) || !w.byId[1].hasCommitted(1) || n2.hasCommitted(1) {
+		w.rep.count("world:directed-cached-bad-commit-setup-failed")
+		return
+	}
+	w.takeH(1, "PP", 0, 2) // member 1 PREPAREs the proposal of height 2
+	var h2 uint64
+	for _, m := range w.history {
+		if m.Kind == "PP" && m.Ref.Height == 2 {
+			h2 = m.Ref.Hash
+		}
+	}
+	if h2 == 0 {
+		w.rep.count("world:directed-cached-bad-commit-setup-failed")
+		return
+	}
+	w.inject(n2, &aMsg{Kind: "C", Ref: aRef{3, worldInst, 2, 0, h2}, Snd: aSig{3, true}, ShareOk: false}, "byz-C-bad-share-one-height-early")
+	w.takeH(2, "PP", 0, 2)
+	w.takeH(2, "P", 1, 2)
+	sentBefore := len(n2.sentLog)
+	w.takeH(2, "C", 0, 1)
+	w.takeH(2, "C", 1, 1) // member 2 commits height 1, starts height 2 and consumes its cache
+	if uint64(n2.vn.State().Height()) != 2 {
+		w.rep.count("world:directed-cached-bad-commit-setup-failed")
+		return
+	}
+	answered := false
+	for _, m := range n2.sentLog[sentBefore:] {
+		if m.Kind == "P" && m.Ref.Height == 2 && m.Ref.Hash == h2 {
+			answered = true
+		}
+	}
+	if !answered {
+		w.rep.finding("C17", "cached-message-not-delivered", "node 2 cached [COMMIT with a bad share, the leader's PREPREPARE, a PREPARE] for height 2; on starting height 2 it did not answer the proposal: the messages cached after the refused COMMIT did not reach the term", w.traceInput())
+	}
+}
+
 func (w *world) kf1ForkScript() {
 	for _, n := range w.honest {
 		w.sync(n, nil)
